@@ -31,12 +31,12 @@ var seedv int64
 
 // Case: a scenario (which issuer, which construction) plus a mutation of the encoded request.
 type Case struct {
-	Issuer int    `json:"issuer"`          // issuer index that evaluates
-	Build  string `json:"build"`           // construction name
-	Mut    string `json:"mutation"`        // none | bit | trunc | ext
-	Arg    int    `json:"arg,omitempty"`   // bit index / length / extension variant
-	Expect string `json:"expect"`          // accept | reject
-	Variant int   `json:"variant,omitempty"`
+	Issuer  int    `json:"issuer"`        // issuer index that evaluates
+	Build   string `json:"build"`         // construction name
+	Mut     string `json:"mutation"`      // none | bit | trunc | ext
+	Arg     int    `json:"arg,omitempty"` // bit index / length / extension variant
+	Expect  string `json:"expect"`        // accept | reject
+	Variant int    `json:"variant,omitempty"`
 }
 
 const registered = "origin.example"
